@@ -11,7 +11,7 @@ REPO = os.environ.get('VERIF_REPO', '/repo')
 WORK = os.path.join(VERIF, '.work')
 COQ = os.path.join(VERIF, 'coq')
 XLATE_DIR = os.path.join(VERIF, 'harness', 'xlate')
-CARGO_ENV = {'CARGO_NET_OFFLINE': 'true'}
+CARGO_ENV = {'CARGO_NET_OFFLINE': 'true', 'CARGO_INCREMENTAL': '0'}
 NSHARDS = 16
 CHUNK = 400      # scenarios per vm_compute term
 
